@@ -7,11 +7,8 @@ W void w_construct(void* mem, void* solver_image) { new (mem) SignalHandler(*rei
 W void w_destroy(void* mem) { static_cast<SignalHandler*>(mem)->~SignalHandler(); }
 W void w_set_handler(void* mem, mp::InterruptHandler h, void* data) { static_cast<SignalHandler*>(mem)->SetHandler(h, data); }
 W int w_stop(void* mem) { return static_cast<SignalHandler*>(mem)->Stop(); }
-#ifdef VF_REAL_BUILD
-// replay build (-DAMPL_MP_VERIF): the source-level hook points call the harness scheduler
-extern "C" void vf_yield(int);
-static void vf_hook(int n) { vf_yield(n); }
+// Both the translated code and the replay build are compiled with -DAMPL_MP_VERIF: the source-level markers MP_VERIF_SIGPOINT(n) call the
+// harness scheduler, so a delivery point is identified by its marker number in both worlds (independent of how many stores the code has)
+extern "C" void vf_marker(int);
+static void vf_hook(int n) { vf_marker(n); }
 W void w_init_hooks() { mp::internal::mp_verif_sigpoint = vf_hook; }
-#else
-W void w_init_hooks() {}
-#endif
